@@ -11,6 +11,19 @@ extern int g_thrown;                      /* ghost: an exception (std::ios_base:
 /* VERIF_STUB byte stream: writes append at wpos, reads consume from rpos; reading past the written data throws
  * (DataStream/AutoFile behaviour: "end of data"). */
 typedef struct { unsigned char* buf; size_t wpos, rpos, cap; } ByteStream;
+#ifdef VERIF_SER_REAL_DATA
+/* C48: ser_writedata* / ser_readdata* are extracted from serialize.h; the stream's write / read of a byte span is the stub */
+static inline void ByteStream_write(ByteStream* s, const void* p, size_t n)
+{
+    if (n > s->cap - s->wpos) { g_thrown = 1; return; }
+    memcpy(s->buf + s->wpos, p, n); s->wpos = s->wpos + n;
+}
+static inline void ByteStream_read(ByteStream* s, void* p, size_t n)
+{
+    if (n > s->wpos - s->rpos) { g_thrown = 1; memset(p, 0, n); return; }      /* "end of data" */
+    memcpy(p, s->buf + s->rpos, n); s->rpos = s->rpos + n;
+}
+#else
 static inline void ser_writedata8(ByteStream* s, uint8_t obj)
 {
     if (s->wpos >= s->cap) { g_thrown = 1; return; }
@@ -21,6 +34,7 @@ static inline uint8_t ser_readdata8(ByteStream* s)
     if (s->rpos >= s->wpos) { g_thrown = 1; return 0; }
     uint8_t r = s->buf[s->rpos]; s->rpos = s->rpos + 1; return r;
 }
+#endif
 
 /* byte vectors (CScript / prevector / std::vector<unsigned char>): data, size and a ghost capacity */
 typedef struct { unsigned char* data; size_t size; size_t cap; } ByteVec;
